@@ -183,6 +183,11 @@ class SimHost:
             self.disk.opaque.discard(rel)
         return p
 
+    def mask(self, *rels):
+        """Outputs that carry real (unseeded) library entropy stay out of the run digest."""
+        if self.swarm.get("entropy") == "real":
+            self.disk.masked.update(rels)
+
     def _norm_hash(self, data: bytes) -> str:
         return hashlib.sha256(data.replace(self._root_b, b"<ROOT>")).hexdigest()
 
@@ -204,6 +209,8 @@ class SimHost:
         """relative path -> sha256 of every file under a directory (or of the file itself)."""
         base = self.path(rel) if rel else self.root
         out = {}
+        if self.swarm.get("entropy") == "real" and self.swarm.get("mask_all_when_real") and not rel:
+            return {"*": "masked (real library entropy)"}
         if os.path.isfile(base):
             with REAL_OPEN(base, "rb") as fh:
                 out[rel] = self._norm_hash(fh.read())
@@ -212,8 +219,12 @@ class SimHost:
             dn.sort()
             for f in sorted(fn):
                 p = os.path.join(dp, f)
+                rel_ = os.path.relpath(p, self.root)
+                if rel_ in self.disk.masked:
+                    out[rel_] = "masked"
+                    continue
                 with REAL_OPEN(p, "rb") as fh:
-                    out[os.path.relpath(p, self.root)] = self._norm_hash(fh.read())
+                    out[rel_] = self._norm_hash(fh.read())
             if not fn and not dn:
                 out[os.path.relpath(dp, self.root) + "/"] = "dir"
         return out
@@ -292,8 +303,9 @@ class SimHost:
         for fk, evk, rel in d.fired:
             if fk == "crash":
                 st["crash_phases"][evk] = st["crash_phases"].get(evk, 0) + 1
+        masked = self.swarm.get("entropy") == "real" and self.swarm.get("mask_all_when_real")
         self.log_line({"op": self.op_index, "kind": kind, "outcome": out.cls, "exc": out.exc_type,
-                       "fs": [[e[0], e[1], e[2], e[3], e[4], e[5]] for e in d.log],
+                       "fs": "masked (real library entropy)" if masked else [[e[0], e[1], e[2], e[3], e[4], e[5]] for e in d.log],
                        "fired": out.fired, "entropy": self.entropy.n, "clock": round(self.clock.t, 6)})
         if out.cls == "crash":
             self.reboot()
